@@ -88,6 +88,9 @@ def renderVal : Val → String
   | .int i => "i" ++ renderInt i
   | .bytes b => "b" ++ toHex b
   | .dt d => s!"t{d.year}-{d.month}-{d.day}-{d.hour}-{d.minute}-{d.second}"
+  | .dec d =>
+    let e := match d.exp with | .fin e => renderInt e | .inf => "F" | .nan => "n" | .snan => "N"
+    "d" ++ (if d.neg then "1" else "0") ++ ":" ++ String.join (d.digits.map toString) ++ ":" ++ e
 
 /-- entries sorted by rendered key (the harness sorts the implementation's dict the same way) -/
 def renderDict (d : Dict) : String :=
